@@ -10,7 +10,11 @@ import json, os, re, shutil, subprocess, sys, tempfile, time, hashlib
 
 VERIF = os.path.dirname(os.path.dirname(os.path.abspath(__file__)))
 REPO = os.environ.get('VERIF_REPO', '/repo')
-BUILD = os.path.join(VERIF, '.build')
+# one build directory per invocation: checks of different properties (or against different checkouts) may run
+# at the same time and must never pick up each other's harness binary
+BUILD = os.path.join(VERIF, '.build', 'p%d' % os.getpid())
+import atexit
+atexit.register(lambda: shutil.rmtree(BUILD, ignore_errors=True))
 # deep recursion of the PEG interpreter on 256-character inputs needs a big Java thread stack
 os.environ['JAVA_TOOL_OPTIONS'] = (os.environ.get('JAVA_TOOL_OPTIONS', '') + ' -Xss512m').strip()
 ENV = dict(os.environ, GOFLAGS='-mod=mod', GOPROXY='off', GOSUMDB='off', GOTOOLCHAIN='local',
